@@ -65,6 +65,7 @@ def check_history(cfg, ops, remount_every=1, want=None, stop_on_first=False, io_
             findings.append(Finding(props, kind, detail, step))
 
     w = World(cfg)
+    tainted = set()
     live = None
     try:
         for i, op in enumerate(ops):
@@ -148,7 +149,37 @@ def check_history(cfg, ops, remount_every=1, want=None, stop_on_first=False, io_
                 # rejecting is right; the tree must be untouched (checked by the following operations and at the end)
                 stats["rejected"] = stats.get("rejected", 0) + 1
                 continue
+            # handles whose byte-buffer position has been beyond end-of-file (a shrinking truncate leaves it there):
+            # FatIO cannot represent that position (known finding D17c), so until the next absolute seek the two sides
+            # are out of step by construction; deviations on such a handle belong to that finding
+            if op[0] in IO_OPS and len(op) > 1 and op[1] in w.rhandles:
+                try:
+                    if w.rhandles[op[1]].pos > w.ref.getsize(w.rhandles[op[1]].name):
+                        tainted.add(op[1])
+                except Exception:  # noqa
+                    pass
             exp = run_op(w.ref, op, w.rhandles)
+            if op[0] in IO_OPS and len(op) > 1 and op[1] in w.rhandles:
+                try:
+                    if w.rhandles[op[1]].pos > w.ref.getsize(w.rhandles[op[1]].name):
+                        tainted.add(op[1])
+                except Exception:  # noqa
+                    pass
+            if op[0] == "close" and len(op) > 1:
+                tainted.discard(op[1])
+            if op[0] == "seek" and len(op) > 3 and op[3] in (0, 2) and got == exp:
+                tainted.discard(op[1])
+            if got != exp and op[0] in IO_OPS and len(op) > 1 and op[1] in tainted and op[1] in w.rhandles \
+                    and got[0] == "ok" and exp[0] == "ok":
+                add(["C02"], "position-beyond-eof-clamped", "%s on a handle whose byte-buffer position had been beyond end-of-file: got %s, "
+                    "the byte buffer %s" % (opkind(op), str(got[1])[:40], str(exp[1])[:40]), i)
+                try:
+                    w.rhandles[op[1]].pos = w.handles[op[1]].tell()
+                    if w.rhandles[op[1]].pos <= w.ref.getsize(w.rhandles[op[1]].name):
+                        tainted.discard(op[1])
+                except Exception:  # noqa
+                    pass
+                continue
             if got != exp and op[0] in ("tell", "seek") and got[0] == "ok" and exp[0] == "ok" and op[1] in w.rhandles:
                 # a position beyond end-of-file (left there by a shrinking truncate) is not representable in
                 # FatIO: seek()/tell() clamp it to the size.  One root cause, one finding class.
